@@ -173,7 +173,10 @@ func (securityAssociation *SecurityAssociation) Unmarshal(b []byte) error {
 			proposal.SPI = append(proposal.SPI, b[8:8+int(spiSize)]...)
 		}
 
-		transformData = b[8+spiSize : proposalLength]
+		if 8+int(spiSize) > int(proposalLength) {
+			return errors.Errorf("Proposal: SPI size %d exceeds the proposal length %d", spiSize, proposalLength)
+		}
+		transformData = b[8+int(spiSize) : proposalLength]
 
 		for len(transformData) > 0 {
 			// bounds checking
